@@ -3,7 +3,6 @@ package main
 import (
 	"go/ast"
 	"go/token"
-	"regexp"
 	"sort"
 	"strconv"
 	"strings"
@@ -12,7 +11,7 @@ import (
 // ---- generic control-flow fingerSkeleton walker
 //
 // The walker visits a function body in source order and records, for every call whose
-// callee text is "interesting" (and for returns / selected assignments), the chain of
+// callee is "interesting" (and for returns / selected assignments), the chain of
 // GUARDS under which it is reached:
 //
 //   if C {…}            body: C                 else: !(C)
@@ -21,9 +20,10 @@ import (
 //   case a, b: / default:   (switch, type switch, select)
 //   if C {…; return}    every later statement of the same block: !(C)   (also `continue`)
 //
-// Guards that mention err / err2 / closeErr / isExitError are error plumbing: they stay
-// on the stack but are not printed.  A return is classed as error plumbing iff the
-// innermost enclosing if-condition mentions err.
+// Guards that mention an error variable (fnorm: structurally — the last result of a call, a value
+// returned as `error`, …, never by its name) are error plumbing: they stay on the stack but are
+// not printed.  A return is classed as error plumbing iff the innermost enclosing if-condition
+// mentions an error variable.
 //
 // Function literals are descended into.  Their body starts from an EMPTY guard stack
 // (the guards are those relative to the closure being invoked); the guards in force
@@ -32,22 +32,28 @@ import (
 // Within one statement calls are listed in source (pre-)order, i.e. an outer call
 // before the calls in its arguments; the entry for the statement itself (return,
 // assign) follows the calls it contains.
+//
+// NO TEXT DEPENDS ON THE NAME OF A LOCAL VARIABLE (see fnorm.go): callees whose receiver is a
+// local are printed by the local's origin, pure single definitions are inlined, every other
+// local is a placeholder ‹k› numbered per function; `def …` rows are the definitions of the
+// verdict variables (the locals that reach a kept return or a visible guard).
 
 type skKind int
 
 const (
 	skCall      skKind = iota
 	skReturn           // a return that is kept
-	skErrReturn        // a return directly under an err condition (guards = "cond | source of err")
+	skErrReturn        // a return directly under an error condition (guards = "cond | source of the error")
 	skAssign           // x[i] = v   /   x = append(x, …)
 	skFunc             // position of a function literal
-	skDef              // assignment to one of the local variables named in skWalker.defs (FULL guard chain, err conditions included)
+	skDef              // definition / assignment of a verdict variable (FULL guard chain, error conditions included)
 )
 
 type skEntry struct {
-	kind   skKind
-	what   string
-	guards string
+	kind    skKind
+	what    string
+	guards  string
+	swallow bool // skErrReturn: the returned values do not mention an error variable
 }
 
 type skGuard struct {
@@ -56,21 +62,28 @@ type skGuard struct {
 }
 
 type skWalker struct {
+	fn          *fnorm
 	interesting func(string) bool
-	defs        func(string) bool // local variables whose definitions / assignments are recorded (nil = none)
+	collect     bool // first pass: only gather the seeds of the verdict variables
+	seeds       []*ast.Object
 	guards      []skGuard
-	ifConds     []string
-	lastErr     string // what was last assigned to err (callee of the call, else the rhs text)
+	ifConds     []ast.Expr
+	ifNeg       []bool // the condition holds negated (else branch)
+	lastErr     string // what was last assigned to an error variable (callee of the call, else the rhs text)
 	out         []skEntry
 }
 
-var (
-	errGuardRe = regexp.MustCompile(`\berr\d*\b|closeErr|isExitError`)
-	errIdentRe = regexp.MustCompile(`^err\d*$`)
-)
-
-func (w *skWalker) push(g string) {
-	w.guards = append(w.guards, skGuard{g, errGuardRe.MatchString(g)})
+// push a guard: `prefix` + normal form of e (+ `suffix`); hidden iff e mentions an error variable
+func (w *skWalker) push(prefix string, e ast.Expr, suffix string) {
+	hidden := e != nil && w.fn.mentionsErr(e)
+	text := prefix
+	if e != nil {
+		text += w.fn.text(e)
+	}
+	w.guards = append(w.guards, skGuard{text + suffix, hidden})
+	if w.collect && !hidden && e != nil {
+		w.seeds = append(w.seeds, w.fn.localsIn(e, false)...)
+	}
 }
 
 func (w *skWalker) chain() string {
@@ -83,8 +96,8 @@ func (w *skWalker) chain() string {
 	return strings.Join(gs, " && ")
 }
 
-// chainAll: the guard chain with the err conditions left in (used for `def` entries: whether a
-// verdict variable is cleared under an err condition matters).
+// chainAll: the guard chain with the error conditions left in (used for `def` entries: whether a
+// verdict variable is cleared under an error condition matters).
 func (w *skWalker) chainAll() string {
 	var gs []string
 	for _, g := range w.guards {
@@ -94,7 +107,9 @@ func (w *skWalker) chainAll() string {
 }
 
 func (w *skWalker) emit(k skKind, what, guards string) {
-	w.out = append(w.out, skEntry{k, what, guards})
+	if !w.collect {
+		w.out = append(w.out, skEntry{kind: k, what: what, guards: guards})
+	}
 }
 
 func endsInExit(b *ast.BlockStmt) bool {
@@ -115,18 +130,26 @@ func (w *skWalker) stmts(list []ast.Stmt) {
 	for _, s := range list {
 		w.stmt(s)
 		if is, ok := s.(*ast.IfStmt); ok && is.Else == nil && endsInExit(is.Body) {
-			w.push("!(" + src(is.Cond) + ")")
+			w.push("!(", is.Cond, ")")
 		}
 	}
 	w.guards = w.guards[:mark]
 }
 
 // guarded runs f with one more guard on the stack.
-func (w *skWalker) guarded(g string, f func()) {
+func (w *skWalker) guarded(prefix string, e ast.Expr, suffix string, f func()) {
 	mark := len(w.guards)
-	w.push(g)
+	w.push(prefix, e, suffix)
 	f()
 	w.guards = w.guards[:mark]
+}
+
+func (w *skWalker) textList(es []ast.Expr) string {
+	ss := make([]string, len(es))
+	for i, e := range es {
+		ss[i] = w.fn.text(e)
+	}
+	return strings.Join(ss, ", ")
 }
 
 func srcList(es []ast.Expr) string {
@@ -145,23 +168,22 @@ func (w *skWalker) stmt(s ast.Stmt) {
 	case *ast.IfStmt:
 		w.stmt(x.Init)
 		w.expr(x.Cond)
-		c := src(x.Cond)
 		nIf := len(w.ifConds)
-		w.ifConds = append(w.ifConds, c)
-		w.guarded(c, func() { w.stmts(x.Body.List) })
+		w.ifConds, w.ifNeg = append(w.ifConds, x.Cond), append(w.ifNeg, false)
+		w.guarded("", x.Cond, "", func() { w.stmts(x.Body.List) })
 		if x.Else != nil {
-			w.ifConds[nIf] = "!(" + c + ")"
-			w.guarded("!("+c+")", func() { w.stmt(x.Else) })
+			w.ifNeg[nIf] = true
+			w.guarded("!(", x.Cond, ")", func() { w.stmt(x.Else) })
 		}
-		w.ifConds = w.ifConds[:nIf]
+		w.ifConds, w.ifNeg = w.ifConds[:nIf], w.ifNeg[:nIf]
 	case *ast.ForStmt:
 		w.stmt(x.Init)
 		w.expr(x.Cond)
-		g := "for"
+		prefix := "for"
 		if x.Cond != nil {
-			g = "for " + src(x.Cond)
+			prefix = "for "
 		}
-		w.guarded(g, func() {
+		w.guarded(prefix, x.Cond, "", func() {
 			w.stmts(x.Body.List)
 			w.stmt(x.Post)
 		})
@@ -169,7 +191,7 @@ func (w *skWalker) stmt(s ast.Stmt) {
 		w.expr(x.Key)
 		w.expr(x.Value)
 		w.expr(x.X)
-		w.guarded("range "+src(x.X), func() { w.stmts(x.Body.List) })
+		w.guarded("range ", x.X, "", func() { w.stmts(x.Body.List) })
 	case *ast.SwitchStmt:
 		w.stmt(x.Init)
 		w.expr(x.Tag)
@@ -185,14 +207,30 @@ func (w *skWalker) stmt(s ast.Stmt) {
 			w.expr(r)
 		}
 		what := "return"
-		res := srcList(x.Results)
-		if res != "" {
+		if res := w.textList(x.Results); res != "" {
 			what += " " + res
 		}
-		if n := len(w.ifConds); n > 0 && errGuardRe.MatchString(w.ifConds[n-1]) {
-			w.emit(skErrReturn, what, w.ifConds[n-1]+" | "+w.lastErr)
+		if n := len(w.ifConds); n > 0 && w.fn.mentionsErr(w.ifConds[n-1]) {
+			if !w.collect {
+				swallow := true
+				for _, r := range x.Results {
+					if w.fn.mentionsErr(r) {
+						swallow = false
+					}
+				}
+				cond := w.fn.text(w.ifConds[n-1])
+				if w.ifNeg[n-1] {
+					cond = "!(" + cond + ")"
+				}
+				w.out = append(w.out, skEntry{kind: skErrReturn, what: what, guards: cond + " | " + w.lastErr, swallow: swallow})
+			}
 		} else {
 			w.emit(skReturn, what, w.chain())
+			if w.collect {
+				for _, r := range x.Results {
+					w.seeds = append(w.seeds, w.fn.localsIn(r, false)...)
+				}
+			}
 		}
 	case *ast.AssignStmt:
 		for _, r := range x.Rhs {
@@ -206,10 +244,10 @@ func (w *skWalker) stmt(s ast.Stmt) {
 			if _, ok := l.(*ast.IndexExpr); ok {
 				note = true
 			}
-			if id, ok := l.(*ast.Ident); ok && errIdentRe.MatchString(id.Name) {
-				w.lastErr = srcList(x.Rhs)
+			if o := w.fn.obj(l); o != nil && w.fn.errs[o] {
+				w.lastErr = w.textList(x.Rhs)
 				if ce, ok := x.Rhs[0].(*ast.CallExpr); ok && len(x.Rhs) == 1 {
-					w.lastErr = src(ce.Fun)
+					w.lastErr = w.fn.callee(ce.Fun)
 				}
 			}
 		}
@@ -219,15 +257,10 @@ func (w *skWalker) stmt(s ast.Stmt) {
 			}
 		}
 		if note {
-			w.emit(skAssign, "assign "+src(x), w.chain())
+			w.emit(skAssign, "assign "+w.fn.text(x), w.chain())
 		}
-		if w.defs != nil {
-			for _, l := range x.Lhs {
-				if id, ok := l.(*ast.Ident); ok && w.defs(id.Name) {
-					w.emit(skDef, "def "+src(x), w.chainAll())
-					break
-				}
-			}
+		if !note && w.fn.isDef(x.Lhs) {
+			w.emit(skDef, "def "+w.fn.text(x), w.chainAll())
 		}
 	case *ast.ExprStmt:
 		w.expr(x.X)
@@ -241,6 +274,13 @@ func (w *skWalker) stmt(s ast.Stmt) {
 				if vs, ok := sp.(*ast.ValueSpec); ok {
 					for _, v := range vs.Values {
 						w.expr(v)
+					}
+					var lhs []ast.Expr
+					for _, id := range vs.Names {
+						lhs = append(lhs, id)
+					}
+					if len(vs.Values) > 0 && w.fn.isDef(lhs) {
+						w.emit(skDef, "def var "+w.fn.text(vs), w.chainAll())
 					}
 				}
 			}
@@ -262,21 +302,37 @@ func (w *skWalker) clauses(body *ast.BlockStmt) {
 	for _, c := range body.List {
 		switch cc := c.(type) {
 		case *ast.CaseClause:
-			g := "default"
-			if cc.List != nil {
-				for _, e := range cc.List {
-					w.expr(e)
+			if cc.List == nil {
+				w.guarded("default", nil, "", func() { w.stmts(cc.Body) })
+				continue
+			}
+			for _, e := range cc.List {
+				w.expr(e)
+			}
+			// one guard for the whole list `case a, b`
+			mark := len(w.guards)
+			hidden := false
+			for _, e := range cc.List {
+				if w.fn.mentionsErr(e) {
+					hidden = true
 				}
-				g = "case " + srcList(cc.List)
+				if w.collect {
+					w.seeds = append(w.seeds, w.fn.localsIn(e, false)...)
+				}
 			}
-			w.guarded(g, func() { w.stmts(cc.Body) })
+			w.guards = append(w.guards, skGuard{"case " + w.textList(cc.List), hidden})
+			w.stmts(cc.Body)
+			w.guards = w.guards[:mark]
 		case *ast.CommClause:
-			g := "default"
-			if cc.Comm != nil {
-				w.stmt(cc.Comm)
-				g = "case " + src(cc.Comm)
+			if cc.Comm == nil {
+				w.guarded("default", nil, "", func() { w.stmts(cc.Body) })
+				continue
 			}
-			w.guarded(g, func() { w.stmts(cc.Body) })
+			w.stmt(cc.Comm)
+			mark := len(w.guards)
+			w.guards = append(w.guards, skGuard{"case " + w.fn.text(cc.Comm), w.fn.mentionsErr(cc.Comm)})
+			w.stmts(cc.Body)
+			w.guards = w.guards[:mark]
 		}
 	}
 }
@@ -289,13 +345,13 @@ func (w *skWalker) expr(e ast.Expr) {
 		switch x := n.(type) {
 		case *ast.FuncLit:
 			w.emit(skFunc, "func", w.chain())
-			g, ic := w.guards, w.ifConds
-			w.guards, w.ifConds = nil, nil
+			g, ic, in := w.guards, w.ifConds, w.ifNeg
+			w.guards, w.ifConds, w.ifNeg = nil, nil, nil
 			w.stmts(x.Body.List)
-			w.guards, w.ifConds = g, ic
+			w.guards, w.ifConds, w.ifNeg = g, ic, in
 			return false
 		case *ast.CallExpr:
-			if c := src(x.Fun); w.interesting(c) {
+			if c := w.fn.callee(x.Fun); w.interesting(c) {
 				w.emit(skCall, c, w.chain())
 			}
 		}
@@ -303,28 +359,38 @@ func (w *skWalker) expr(e ast.Expr) {
 	})
 }
 
+// walkSkeleton: the entries of one function in source order; locals are still position tokens —
+// the caller selects the entries it emits and numbers the locals with `renumberEntries`.
 func walkSkeleton(fd *ast.FuncDecl, interesting func(string) bool) []skEntry {
-	return walkSkeletonDefs(fd, interesting, nil)
-}
-
-func walkSkeletonDefs(fd *ast.FuncDecl, interesting, defs func(string) bool) []skEntry {
-	w := &skWalker{interesting: interesting, defs: defs}
-	if fd != nil && fd.Body != nil {
-		w.stmts(fd.Body.List)
+	if fd == nil || fd.Body == nil {
+		return nil
 	}
+	fn := fnormOf(fd)
+	pass1 := &skWalker{fn: fn, interesting: interesting, collect: true}
+	pass1.stmts(fd.Body.List)
+	fn.track(pass1.seeds)
+	w := &skWalker{fn: fn, interesting: interesting}
+	w.stmts(fd.Body.List)
 	return w.out
 }
 
-// fingerSkeleton: the interesting calls and the kept returns of a function, each with its
-// guard chain, in source order.
-func fingerSkeleton(fd *ast.FuncDecl, interesting func(callee string) bool) [][2]string {
-	var out [][2]string
-	for _, e := range walkSkeleton(fd, interesting) {
-		if e.kind == skCall || e.kind == skReturn || e.kind == skFunc {
-			out = append(out, [2]string{e.what, e.guards})
+// renumberEntries: the locals of ONE function → ‹0›, ‹1›, … by first appearance in the groups, in
+// the order given (the table rows first, then what is listed elsewhere about the same function)
+func renumberEntries(groups ...[]skEntry) {
+	var rows [][2]string
+	for _, g := range groups {
+		for _, e := range g {
+			rows = append(rows, [2]string{e.what, e.guards})
 		}
 	}
-	return out
+	rows = renumberRows(rows)
+	k := 0
+	for _, g := range groups {
+		for i := range g {
+			g[i].what, g[i].guards = rows[k][0], rows[k][1]
+			k++
+		}
+	}
 }
 
 // flattenLayout forgets the line structure of every file parsed so far.  go/printer
@@ -347,6 +413,24 @@ func setOf(xs ...string) func(string) bool {
 	return func(s string) bool { return m[s] }
 }
 
+// enclosingFnorm: the normaliser of the function declaration a node of `p` lies in
+type fnormCache map[*ast.FuncDecl]*fnorm
+
+func (c fnormCache) of(fd *ast.FuncDecl) *fnorm {
+	if f, ok := c[fd]; ok {
+		return f
+	}
+	f := newFnorm(fd)
+	c[fd] = f
+	return f
+}
+
+var sharedNorms = fnormCache{}
+
+func fnormOf(fd *ast.FuncDecl) *fnorm { return sharedNorms.of(fd) }
+
+var _ = sort.Strings
+
 // ---- Table 1: DryWiring
 
 func genDryWiring() {
@@ -356,6 +440,7 @@ func genDryWiring() {
 	loadDir("internal/flags")
 	flattenLayout()
 
+	norms := fnormCache{}
 	// calls: who passes what as the dry bit
 	qualified := setOf("fingerprint.WithDry", "task.WithDry",
 		"fingerprint.NewSourcesChecker", "fingerprint.NewChecksumChecker", "fingerprint.NewTimestampChecker")
@@ -372,8 +457,11 @@ func genDryWiring() {
 			}
 			for _, decl := range p.files[fn].Decls {
 				encl := "<toplevel>"
+				text := func(n ast.Node) string { return src(n) }
 				if fd, ok := decl.(*ast.FuncDecl); ok {
 					encl = funcName(fd)
+					f := norms.of(fd)
+					text = func(n ast.Node) string { return renumber1(f.text(n)) } // locals: placeholders per entry
 				}
 				ast.Inspect(decl, func(n ast.Node) bool {
 					ce, ok := n.(*ast.CallExpr)
@@ -382,7 +470,7 @@ func genDryWiring() {
 					}
 					c := src(ce.Fun)
 					if qualified(c) || (d.local && local(c)) {
-						calls = append(calls, [2]string{encl + ":" + c, src(ce.Args[len(ce.Args)-1])})
+						calls = append(calls, [2]string{encl + ":" + c, text(ce.Args[len(ce.Args)-1])})
 					}
 					return true
 				})
@@ -402,7 +490,7 @@ func genDryWiring() {
 		for _, cl := range returnedLiterals(fd) {
 			for _, e := range cl.Elts {
 				if kv, ok := e.(*ast.KeyValueExpr); ok && src(kv.Key) == "dry" {
-					fields = append(fields, [2]string{ctor + ".dry", src(kv.Value)})
+					fields = append(fields, [2]string{ctor + ".dry", renumber1(norms.of(fd).text(kv.Value))})
 				}
 			}
 		}
@@ -412,49 +500,80 @@ func genDryWiring() {
 	l.pairList("fields", fields)
 
 	// guards
+	// (`(fingerprint.NewSourcesChecker).OnError`: method OnError called on the value returned by
+	// fingerprint.NewSourcesChecker — whatever the local that holds it is called)
 	interesting := setOf("e.Logger.Prompt", "e.mkdir", "os.MkdirAll", "e.runCommand", "e.runDeferred",
-		"e.statusOnError", "checker.OnError", "execext.RunCommand", "fingerprint.IsTaskUpToDate",
+		"e.statusOnError", "(fingerprint.NewSourcesChecker).OnError", "execext.RunCommand", "fingerprint.IsTaskUpToDate",
 		"e.areTaskPreconditionsMet", "e.runDeps", "e.RunTask", "e.ToEditorOutput", "e.Status",
 		"summary.PrintTask", "e.splitRegularAndWatchCalls")
 	var guards [][2]string
 	for _, fn := range []string{"Executor.RunTask", "Executor.runCommand", "Executor.mkdir", "Executor.Status",
 		"Executor.statusOnError", "Executor.ToEditorOutput", "Executor.ListTasks", "Executor.Run"} {
+		var kept []skEntry
 		for _, e := range walkSkeleton(root.funcDecl(fn), interesting) {
 			if e.kind == skCall || e.kind == skFunc {
-				guards = append(guards, [2]string{fn + ":" + e.what, e.guards})
+				kept = append(kept, e)
 			}
+		}
+		renumberEntries(kept)
+		for _, e := range kept {
+			guards = append(guards, [2]string{fn + ":" + e.what, e.guards})
 		}
 	}
 	l.pairList("guards", guards)
 
-	// the two conditions of RunTask the model quotes (operands of && / || sorted; the local
-	// that holds the result of areTaskPreconditionsMet printed as <preconditions>)
+	// the two conditions of RunTask the model quotes (operands of && / || sorted).  Selected by
+	// structure, not by the names of the locals involved:
+	//   skipFingerprinting = the definition of the local whose negation guards the call of
+	//                        fingerprint.IsTaskUpToDate (inlined by the normal form; if the guard has
+	//                        another shape it is printed as `guard: …`);
+	//   upToDateReturn     = the condition of the `if` that logs "is up to date" and returns nil; a
+	//                        local holding the result of a call is printed as <callee>.
 	skip, upToDate := "", ""
-	precondVar := map[string]string{}
-	if fd := root.funcDecl("Executor.RunTask"); fd != nil {
-		ast.Inspect(fd, func(n ast.Node) bool {
-			if as, ok := n.(*ast.AssignStmt); ok && len(as.Rhs) == 1 && len(as.Lhs) >= 1 && contains(src(as.Rhs[0]), "areTaskPreconditionsMet(") {
-				precondVar[src(as.Lhs[0])] = "<preconditions>"
-			}
-			return true
-		})
-	}
-	if fd := root.funcDecl("Executor.RunTask"); fd != nil {
-		ast.Inspect(fd, func(n ast.Node) bool {
-			switch x := n.(type) {
-			case *ast.AssignStmt:
-				if x.Tok == token.DEFINE && len(x.Lhs) == 1 && len(x.Rhs) == 1 && src(x.Lhs[0]) == "skipFingerprinting" {
-					skip = canonBool(x.Rhs[0], nil)
+	if fd := root.funcDecl("Executor.RunTask"); fd != nil && fd.Body != nil {
+		f := norms.of(fd)
+		fromCall := func(o *ast.Object) (string, bool) {
+			if f.once(o) {
+				if ce, ok := f.sites[o][0].rhs.(*ast.CallExpr); ok && f.sites[o][0].index == 0 {
+					return "<" + f.callee(ce.Fun) + ">", true
 				}
-			case *ast.IfStmt:
-				if n := len(x.Body.List); n > 0 && upToDate == "" {
-					if rs, ok := x.Body.List[n-1].(*ast.ReturnStmt); ok && srcList(rs.Results) == "nil" && mentionsLiteral(x.Body, "is up to date") {
-						upToDate = canonBool(x.Cond, precondVar)
+			}
+			return "", false
+		}
+		leaf := func(e ast.Expr) string { return f.textWith(e, fromCall) }
+		callsUpToDate := func(n ast.Node) bool {
+			found := false
+			ast.Inspect(n, func(m ast.Node) bool {
+				if ce, ok := m.(*ast.CallExpr); ok && src(ce.Fun) == "fingerprint.IsTaskUpToDate" {
+					found = true
+				}
+				return !found
+			})
+			return found
+		}
+		ast.Inspect(fd, func(n ast.Node) bool {
+			x, ok := n.(*ast.IfStmt)
+			if !ok {
+				return true
+			}
+			if skip == "" && callsUpToDate(x.Body) {
+				if u, ok := x.Cond.(*ast.UnaryExpr); ok && u.Op == token.NOT {
+					if o := f.obj(u.X); o != nil && f.inl[o] != nil {
+						skip = canonBoolF(f.inl[o], leaf)
 					}
 				}
+				if skip == "" {
+					skip = "guard: " + canonBoolF(x.Cond, leaf)
+				}
+			}
+			if n := len(x.Body.List); n > 0 && upToDate == "" {
+				if rs, ok := x.Body.List[n-1].(*ast.ReturnStmt); ok && srcList(rs.Results) == "nil" && mentionsLiteral(x.Body, "is up to date") {
+					upToDate = canonBoolF(x.Cond, leaf)
+				}
 			}
 			return true
 		})
+		skip, upToDate = renumber1(skip), renumber1(upToDate)
 	}
 	l.str("skipFingerprinting", skip)
 	l.str("upToDateReturn", upToDate)
@@ -489,7 +608,7 @@ func returnedLiteralsSrc(fd *ast.FuncDecl) ([]*ast.CompositeLit, []string) {
 			return false
 		case *ast.ReturnStmt:
 			for _, r := range x.Results {
-				t := src(r)
+				t := renumber1(fnormOf(fd).text(r))
 				if u, ok := r.(*ast.UnaryExpr); ok && u.Op == token.AND {
 					r = u.X
 				}
@@ -513,17 +632,18 @@ func optionStores(p *pkgFiles, fn, key string) [][2]string {
 		return nil
 	}
 	var out [][2]string
-	assigns := func(n ast.Node) {
+	// (the parameter of the returned closure — `config` — is a local of the option function: ‹0›)
+	assigns := func(of *ast.FuncDecl, n ast.Node) {
 		ast.Inspect(n, func(m ast.Node) bool {
 			if as, ok := m.(*ast.AssignStmt); ok {
-				out = append(out, [2]string{key, src(as)})
+				out = append(out, [2]string{key, renumber1(fnormOf(of).text(as))})
 			}
 			return true
 		})
 	}
 	ast.Inspect(fd.Body, func(n ast.Node) bool {
 		if fl, ok := n.(*ast.FuncLit); ok {
-			assigns(fl.Body)
+			assigns(fd, fl.Body)
 			return false
 		}
 		return true
@@ -537,7 +657,7 @@ func optionStores(p *pkgFiles, fn, key string) [][2]string {
 		out = append(out, [2]string{key + ":return", txts[i]})
 		for _, m := range p.allFuncs() {
 			if m.Recv != nil && m.Body != nil && strings.HasPrefix(funcName(m), ty+".") {
-				assigns(m.Body)
+				assigns(m, m.Body)
 			}
 		}
 	}
@@ -551,12 +671,13 @@ func genFingerOrder() {
 	fp := loadDir("internal/fingerprint")
 	flattenLayout()
 	interesting := setOf("os.ReadFile", "os.WriteFile", "os.MkdirAll", "os.Create", "os.Chtimes", "os.Stat",
-		"os.Remove", "os.Open", "checker.checksum", "checker.checksumFilePath", "checker.timestampFilePath",
+		"os.Remove", "os.Open", "checker.checksum", "checker.checksumFilePath", "checker.timestampFilePath", // (checker: the receiver)
 		"Globs", "glob", "collectKeys", "getMaxTime", "anyFileNewerThan", "time.Now", "normalizeFilename",
-		"filepath.Base", "filepath.Rel", "filepath.ToSlash", "filepath.Join", "io.CopyBuffer", "xxh3.New", "h.Sum128", "sort.Strings",
-		"execext.ExpandFields", "execext.RunCommand", "config.statusChecker.IsUpToDate",
-		"config.sourcesChecker.IsUpToDate", "NewSourcesChecker", "NewStatusChecker", "t.Name",
-		"strings.TrimSpace", "append", "stateFilename", "fmt.Sprintf", "xxh3.HashString", "touchMarker")
+		"filepath.Base", "filepath.Rel", "filepath.ToSlash", "filepath.Join", "io.CopyBuffer", "xxh3.New", "(xxh3.New).Sum128", "sort.Strings",
+		"execext.ExpandFields", "execext.RunCommand", "(&CheckerConfig{}).statusChecker.IsUpToDate",
+		"(&CheckerConfig{}).sourcesChecker.IsUpToDate", "NewSourcesChecker", "NewStatusChecker", "t.Name",
+		"strings.TrimSpace", "append", "stateFilename", "fmt.Sprintf", "xxh3.HashString",
+		"(func·0)") // the closure `touchMarker` of TimestampChecker.IsUpToDate: the first function literal of the body
 	var swallowed [][2]string
 	for _, f := range [][2]string{
 		{"ChecksumChecker.IsUpToDate", "checksumIsUpToDate"},
@@ -574,56 +695,59 @@ func genFingerOrder() {
 		{"StatusChecker.IsUpToDate", "statusIsUpToDate"},
 	} {
 		var rows [][2]string
-		// the verdict variables of TimestampChecker.IsUpToDate: where they are defined / cleared
-		var defs func(string) bool
-		switch f[0] {
-		case "TimestampChecker.IsUpToDate":
-			defs = setOf("upToDate", "generatesExist", "shouldUpdate", "markerExists")
-		case "stateFilename":
-			defs = setOf("normalized")
-		}
-		for _, e := range walkSkeletonDefs(fp.funcDecl(f[0]), interesting, defs) {
+		var table, swal []skEntry
+		for _, e := range walkSkeleton(fp.funcDecl(f[0]), interesting) {
 			switch e.kind {
 			case skCall, skReturn, skAssign, skFunc, skDef:
-				rows = append(rows, [2]string{e.what, e.guards})
+				table = append(table, e)
 			case skErrReturn:
-				if !errGuardRe.MatchString(strings.TrimPrefix(e.what, "return")) {
-					swallowed = append(swallowed, [2]string{f[0], e.what + " | " + e.guards})
+				if e.swallow {
+					swal = append(swal, e)
 				}
 			}
+		}
+		renumberEntries(table, swal) // the swallowed returns name the locals as the function's table does
+		for _, e := range table {
+			rows = append(rows, [2]string{e.what, e.guards})
+		}
+		for _, e := range swal {
+			swallowed = append(swallowed, [2]string{f[0], e.what + " | " + e.guards})
 		}
 		l.pairList(f[1], rows)
 	}
 	l.pairList("swallowedErrReturns", swallowed)
 
-	// the NAME hashed with every source file: arguments of filepath.Rel, the assignment taken
-	// when it fails, and the reader handed to the first io.CopyBuffer
-	nameRel, nameFallback, nameHashed := "", "", ""
-	if fd := fp.funcDecl("ChecksumChecker.checksum"); fd != nil {
+	// the NAME hashed with every source file, as one fact with shared placeholders: the statement
+	// that calls filepath.Rel, the assignment taken when that fails (the `if` on its error variable),
+	// and the reader handed to the first io.CopyBuffer
+	var nameFacts []string
+	if fd := fp.funcDecl("ChecksumChecker.checksum"); fd != nil && fd.Body != nil {
+		f := fnormOf(fd)
+		rel, fallback, hashed := "", "", ""
 		ast.Inspect(fd, func(n ast.Node) bool {
 			switch x := n.(type) {
-			case *ast.CallExpr:
-				switch src(x.Fun) {
-				case "filepath.Rel":
-					nameRel = srcList(x.Args)
-				case "io.CopyBuffer":
-					if nameHashed == "" && len(x.Args) >= 2 {
-						nameHashed = src(x.Args[1])
+			case *ast.AssignStmt:
+				if len(x.Rhs) == 1 && rel == "" {
+					if ce, ok := x.Rhs[0].(*ast.CallExpr); ok && src(ce.Fun) == "filepath.Rel" {
+						rel = f.text(x)
 					}
 				}
+			case *ast.CallExpr:
+				if src(x.Fun) == "io.CopyBuffer" && hashed == "" && len(x.Args) >= 2 {
+					hashed = f.text(x.Args[1])
+				}
 			case *ast.IfStmt:
-				if nameRel != "" && nameFallback == "" && errGuardRe.MatchString(src(x.Cond)) && len(x.Body.List) == 1 {
+				if rel != "" && fallback == "" && f.mentionsErr(x.Cond) && len(x.Body.List) == 1 {
 					if as, ok := x.Body.List[0].(*ast.AssignStmt); ok {
-						nameFallback = src(as)
+						fallback = f.text(as)
 					}
 				}
 			}
 			return true
 		})
+		nameFacts = renumber([]string{"rel: " + rel, "fallback: " + fallback, "hashed: " + hashed})
 	}
-	l.str("checksumNameRel", nameRel)
-	l.str("checksumNameFallback", nameFallback)
-	l.str("checksumNameHashed", nameHashed)
+	l.strList("checksumName", nameFacts)
 
 	// file naming
 	re := ""
@@ -694,36 +818,6 @@ func unquoteLit(e ast.Expr) string {
 	if bl, ok := e.(*ast.BasicLit); ok && bl.Kind == token.STRING {
 		if s, err := strconv.Unquote(bl.Value); err == nil {
 			return s
-		}
-	}
-	return src(e)
-}
-
-// canonBool prints a boolean expression with the operands of every && / || chain sorted and
-// the given identifiers renamed, so that reordering operands or renaming a local changes nothing.
-func canonBool(e ast.Expr, rename map[string]string) string {
-	switch x := e.(type) {
-	case *ast.ParenExpr:
-		return "(" + canonBool(x.X, rename) + ")"
-	case *ast.BinaryExpr:
-		if x.Op == token.LAND || x.Op == token.LOR {
-			var ops []string
-			var collect func(e ast.Expr)
-			collect = func(e ast.Expr) {
-				if b, ok := e.(*ast.BinaryExpr); ok && b.Op == x.Op {
-					collect(b.X)
-					collect(b.Y)
-					return
-				}
-				ops = append(ops, canonBool(e, rename))
-			}
-			collect(x)
-			sort.Strings(ops)
-			return strings.Join(ops, " "+x.Op.String()+" ")
-		}
-	case *ast.Ident:
-		if r, ok := rename[x.Name]; ok {
-			return r
 		}
 	}
 	return src(e)
